@@ -313,7 +313,8 @@ impl Acct {
         let marathon = rng.chance(0.12);
         if marathon {
             cfg.chunk = rng.ui(1, 3);
-            if cfg.kind.is_sinc() {
+            if cfg.kind.is_sinc() && rng.bool() {
+                // short filter = small constant (bound clause); otherwise keep the drawn length (trend clause)
                 cfg.sinc_len = 8 * rng.ui(1, 3);
             }
             if cfg.kind.is_fft() {
@@ -381,6 +382,8 @@ impl Acct {
             }
         }
         let mut worst = 0.0f64;
+        // deviation envelope per block of 16384 calls (trend clause for very slow drifts)
+        let mut env: Vec<(f64, f64)> = Vec::new();
         while tin + tout < frames_budget && calls < max_calls {
             if sched && rng.chance(0.2) {
                 let n = match rng.ui(0, 3) {
@@ -402,6 +405,14 @@ impl Acct {
             calls += 1;
             if cfg.kind.is_async() {
                 let d = tout as f64 - ratio * tin as f64;
+                let b = (calls >> 14) as usize;
+                if env.len() <= b {
+                    env.push((d, d));
+                } else {
+                    let e = &mut env[b];
+                    e.0 = e.0.min(d);
+                    e.1 = e.1.max(d);
+                }
                 if d.abs() / bound > worst {
                     worst = d.abs() / bound;
                 }
@@ -429,6 +440,32 @@ impl Acct {
                     ));
                     break;
                 }
+            }
+        }
+        // trend clause: at constant ratio the deviation is a bounded saw-tooth, so its envelope over the
+        // first and the last third of a long stream must coincide up to the saw-tooth amplitude; a shift of
+        // both envelope edges in the same direction by more than max(1,r)+1 frames is growth with the
+        // length of the stream, long before the property's constant is crossed
+        if cfg.kind.is_async() && env.len() >= 9 && cr.viols.is_empty() {
+            let third = env.len() / 3;
+            let fold = |s: &[(f64, f64)]| s.iter().fold((f64::INFINITY, f64::NEG_INFINITY), |a, e| (a.0.min(e.0), a.1.max(e.1)));
+            let first = fold(&env[..third]);
+            let last = fold(&env[env.len() - 1 - third..env.len() - 1]);
+            let (s_min, s_max) = (last.0 - first.0, last.1 - first.1);
+            // measured on the unchanged tree: at most 0.17 of max(1,r)+1 over 9000 streams
+            let thr = ratio.max(1.0) + 1.0;
+            let shift = if s_min.signum() == s_max.signum() { s_min.abs().min(s_max.abs()) } else { 0.0 };
+            st.max("worst_envelope_shift_over_threshold", shift / thr);
+            st.add("streams_with_trend_check", 1.0);
+            if shift > thr {
+                cr.viols.push(Viol::new(
+                    "C07",
+                    "drift_trend",
+                    format!(
+                        "over {} calls the envelope of (total out - ratio*total in) moved from [{:.3}, {:.3}] (first third) to [{:.3}, {:.3}] (last third): a shift of {:.3} frames, more than the saw-tooth amplitude max(1,r)+1 = {:.2} can explain; the deviation grows with the length of the stream",
+                        calls, first.0, first.1, last.0, last.1, shift, thr
+                    ),
+                ));
             }
         }
         st.add("process_calls", calls as f64);
